@@ -470,7 +470,7 @@ class StreamWriter(codecs.StreamWriter):
                 newinput = _fixencoding(input, str(encoding), False)
                 if newinput is None:  # @charset rule incomplete => Retry next time
                     self.buffer = input
-                    return ("", 0)
+                    return (b"", 0)
                 input = newinput
             else:
                 # Use encoding from the @charset declaration
@@ -485,7 +485,7 @@ class StreamWriter(codecs.StreamWriter):
                 self.buffer = ""
             else:
                 self.buffer = input
-                return ("", 0)
+                return (b"", 0)
         return (self.streamwriter.encode(input, errors)[0], li)
 
     def _geterrors(self):
